@@ -413,6 +413,7 @@ pub fn judge(spec: &NumSpec, lit: &str, engine_accepts: bool) -> Option<Disagree
 }
 
 pub fn engine_accepts(f: &Factory, root: &llguidance::Matcher, lit: &str) -> bool {
+    crate::watchdog::beat();
     let trie = f.env.tok_trie();
     let mut m = root.clone();
     for b in lit.bytes() {
